@@ -16,3 +16,15 @@ func verifEmit(ev string, kv ...interface{}) {
 		s(ev, kv...)
 	}
 }
+
+// VerifCandidates, when set, replaces the candidate list of match() before it is
+// sorted and filtered, so that model-generated candidate lists can be replayed
+// through the real overlap filter. nil means no effect.
+var VerifCandidates func(Matches) Matches
+
+func verifCandidates(c Matches) Matches {
+	if f := VerifCandidates; f != nil {
+		return f(c)
+	}
+	return c
+}
